@@ -6,7 +6,7 @@ from .common import *
 
 TY = {'unsigned char': 'u8', 'char': 'u8', 'signed char': 's8', 'short': 's16', 'unsigned short': 'u16',
       'signed short': 's16', 'int': 's16', 'unsigned int': 'u16', 'const unsigned char': 'u8',
-      'const char': 'u8', 'const signed char': 's8'}
+      'const char': 'u8', 'const signed char': 's8', 'unsigned char *': 'ptr', 'char *': 'ptr'}
 
 
 def sx_e(e):
@@ -17,6 +17,10 @@ def sx_e(e):
         return '(var %s)' % e[1]
     if k == 'idx':
         return '(idx %s %s)' % (e[1], sx_e(e[2]))
+    if k == 'deref':
+        return '(idx %s (num 0))' % e[1]
+    if k == 'addr':
+        return '(addr %s)' % e[1]
     if k == 'bin':
         return '(bin %s %s %s)' % (e[1], sx_e(e[2]), sx_e(e[3]))
     if k == 'un':
@@ -73,7 +77,7 @@ def c_globals(prog):
     """[(name, ty, len|None, const, init|None)] of the generated program, parameters included"""
     out = []
     for (t, n, init, alen, qual) in prog.globals:
-        if '*' in t:
+        if '*' in t and 'const' in t:
             continue       # hardware-register pointer constants: not C-level state
         const = t.startswith('const')
         out.append((n, TY[t], alen, const, init))
@@ -89,12 +93,12 @@ def cprog_record(pid, prog, lay, states, fuel=100000):
     gl = c_globals(prog)
     watch = []
     for (n, ty, alen, const, init) in gl:
-        o.append('var %s %s %s %d' % (n, ty, alen if alen is not None else '-', 1 if const else 0))
+        o.append('var %s %s %s %d %d' % (n, ty, alen if alen is not None else '-', 1 if const else 0, lay['sym'].get(n, -1)))
         if init is not None:
             for i, v in enumerate(init if isinstance(init, list) else [init]):
                 o.append('init %s %d %d' % (n, i, v))
         if n in lay['cells'] and not const and not any(n == p for f in prog.funcs for _, p in f['params']):
-            bits = 16 if ty.endswith('16') else 8
+            bits = 16 if ty.endswith('16') or ty == 'ptr' else 8
             for i in range(alen or 1):
                 watch.append((n, i, bits))
     watch += [('X', 0, 8), ('Y', 0, 8)]
@@ -111,7 +115,7 @@ def cprog_record(pid, prog, lay, states, fuel=100000):
             if n not in lay['cells'] or const:
                 continue
             addrs = lay['cells'][n]
-            if ty.endswith('16'):
+            if ty.endswith('16') or ty == 'ptr':
                 cells.append('%s:0=%d' % (n, st['cells'].get(addrs[0], 0) + 256 * st['cells'].get(addrs[1], 0)))
             else:
                 for i, a in enumerate(addrs):
